@@ -53,7 +53,7 @@ def fo_args(name, tier):
     L = LOGICS[name]
     if not L.quantified:
         return ()
-    out = _fo(2, True) if tier == 'quick' else _fo(3, True)
+    out = _fo(2, 'small') if tier == 'quick' else _fo(3, True)
     if not L.identity:
         out = tuple(a for a in out if 'I' not in a)
     if L.modal:
